@@ -232,7 +232,7 @@ prop("C01", engine="e1", rule=(
     "and operator() and compared with the brute-force reference model; "
     "non-trivial = some called tuple has >= 2 applicable definitions; "
     "distinct = canonical hash of (registry, configuration)"),
-    quick=dict(also=[dict(engine="e2", workers=4, cases=600)], cases=6000, size=60), thorough=dict(also=[dict(engine="e2", workers=4, cases=20000)], cases=200000, size=100))
+    quick=dict(also=[dict(engine="e2", workers=4, cases=600)], cases=6000, size=60), thorough=dict(fuzz=dict(engine="e1f", workers=4, runs=300000), also=[dict(engine="e2", workers=4, cases=20000)], cases=200000, size=100))
 prop("C03", engine="e1", rule=(
     "random registries; after update the next pointer written for every "
     "definition is compared with the model's select() over strictly more "
@@ -245,7 +245,7 @@ prop("C04", engine="e1", rule=(
     "bounds-checked re-implementation of the table walk, real resolve under "
     "ASan; non-trivial = a class with >= 2 direct bases exists and >= 2 "
     "(method, parameter) pairs share a class"),
-    quick=dict(cases=12000, size=60), thorough=dict(cases=200000, size=100))
+    quick=dict(cases=12000, size=60), thorough=dict(fuzz=dict(engine="e1f", workers=4, runs=300000), cases=200000, size=100))
 prop("C02", engine="e1", rule=(
     "random registries biased to gaps and ambiguities (duplicated "
     "definitions included), all signature shapes, error facets vectored / "
@@ -502,6 +502,57 @@ def worker_env(seed, cases, size):
     return env
 
 
+def run_fuzz(fz, pid, tier, seed, scratch, failures):
+    """libFuzzer campaign over the same generators and oracles (bytes ->
+    structure-aware decode).  -runs bounds it; slow-unit / timeout / oom
+    artifacts are load noise and are ignored."""
+    exe = build(fz["engine"])
+    n = fz.get("workers", 4)
+    procs = []
+    for w in range(n):
+        corpus = os.path.join(scratch, "corpus%d" % w)
+        os.makedirs(corpus, exist_ok=True)
+        with open(os.path.join(corpus, "seed0"), "wb") as f:
+            f.write(bytes([w, 7, 3, 1, 4, 1, 5, 9, 2, 6] * 8))
+        env = worker_env(1, 1, 1)
+        env["VERIF_FUZZ_OUT"] = scratch
+        fseed = splitmix(seed, pid, tier, "fuzz", w) % 2000000000 + 1
+        cmd = [exe, "-runs=%d" % fz["runs"], "-seed=%d" % fseed,
+               "-max_len=2048", "-print_final_stats=1", "-timeout=60",
+               "-rss_limit_mb=4096",
+               "-artifact_prefix=%s/fz%d-" % (scratch, w), corpus]
+        log = open(os.path.join(scratch, "fz%d.log" % w), "w")
+        procs.append((subprocess.Popen(cmd, env=env, stdout=log,
+                                       stderr=subprocess.STDOUT), log, w))
+    execs = 0
+    for p, log, w in procs:
+        p.wait()
+        log.close()
+        with open(os.path.join(scratch, "fz%d.log" % w)) as f:
+            for line in f:
+                if "stat::number_of_executed_units" in line:
+                    execs += int(line.split()[-1])
+    # semantic failures wrote their own replay file
+    for path in glob.glob(os.path.join(scratch, "fuzz-failure-*.json")):
+        with open(path) as f:
+            failures.append(json.load(f))
+    # crashes inside the library: decode the artifact into a case
+    for path in glob.glob(os.path.join(scratch, "fz*-crash-*")):
+        dump = path + ".case.json"
+        env = worker_env(1, 1, 1)
+        env["VERIF_FUZZ_DUMP"] = dump
+        subprocess.run([exe, path], env=env, stdout=subprocess.DEVNULL,
+                       stderr=subprocess.DEVNULL)
+        if os.path.exists(dump):
+            with open(dump) as f:
+                fl = json.load(f)
+            already = any(f2.get("case") == fl["case"] for f2 in failures)
+            if not already:
+                failures.append(fl)
+    return {"engine": fz["engine"], "workers": n,
+            "runs_per_worker": fz["runs"], "executions": execs}
+
+
 def load_known_findings():
     path = os.path.join(ROOT, "known_findings.json")
     if not os.path.exists(path):
@@ -680,6 +731,10 @@ def check(pid, tier, seed):
                      os.path.join(scratch, "w%d.log" % w)))
     with cf.ThreadPoolExecutor(max_workers=NCPU) as ex:
         results = list(ex.map(run_worker, jobs))
+    fuzz_stats = None
+    if tcfg.get("fuzz"):
+        fuzz_stats = run_fuzz(tcfg["fuzz"], pid, tier, seed, scratch,
+                              failures)
     program_result = None
     if cfg.get("program"):
         mod = program_module(cfg["program"])
@@ -870,6 +925,7 @@ def check(pid, tier, seed):
                                 variants=g["variants"]) for g in groups],
             "exhaustive": False,
             "exhaustive_parts": exhaustive_parts,
+            "coverage_guided_fuzzing": fuzz_stats,
         },
         "assumptions": cfg.get("assumptions", [
             "the reference model of DESIGN.md section 3 states the documented "
